@@ -10,6 +10,10 @@ CONSTANTS EmitCover          \* K > 0: print a script line for about 1/K of the 
 CONSTANTS EmitOut            \* 1: print <<"OUT", call sequence, state after the call>> at every return (C09)
 
 VARIABLE hist                \* sequence of top-level public calls (hidden by VIEW)
+VARIABLE std                 \* C07: the reference model of std::rc (StdRc.tla) run in lock step
+
+CONSTANTS TrackStd           \* 1: maintain `std` and compare at every return
+S == INSTANCE StdRc
 
 OpsCore == {"New", "CloneRoot", "CloneStored", "DropRoot", "Store", "Take", "DropStored",
             "Adopt", "Unadopt", "AdoptSame", "UnadoptSame", "AdoptStore", "TakeUnadopt"}
@@ -46,9 +50,16 @@ MenuPanic == {NoScript, Sc("Panic", 0, 0)}
 OpsConsume == {"New", "CloneRoot", "DropRoot", "AdoptStore", "TakeUnadopt", "Store", "Downgrade", "WeakDrop", "Upgrade",
                "TryUnwrap", "GetMut", "MakeMut", "IntoRaw", "FromRaw", "IncStrong", "DecStrong", "DropDetached"}
 VPurge == [bust |-> "owned", loop |-> "ignored", consume |-> "purge"]
-OpsOrder == {"New", "CloneRoot", "DropRoot", "AdoptStore", "TakeUnadopt", "Downgrade", "WeakDrop", "Upgrade"}
+OpsOrder == {"New", "CloneRoot", "DropRoot", "AdoptStore", "TakeUnadopt", "Downgrade", "WeakDrop", "Upgrade",
+             "AdoptSame", "UnadoptSame"}
 CapsO == [strong |-> 3, stored |-> 2, rec |-> 2, weak |-> 1, storedW |-> 1, over |-> FALSE, elide |-> FALSE, scripted |-> 1]
 CapsO3 == [strong |-> 2, stored |-> 1, rec |-> 1, weak |-> 0, storedW |-> 0, over |-> FALSE, elide |-> FALSE, scripted |-> 1]
+OpsStd == {"New", "CloneRoot", "CloneStored", "DropRoot", "Store", "Take", "DropStored",
+           "Downgrade", "Upgrade", "UpgradeStored", "WeakClone", "WeakDrop", "StoreWeak", "TakeWeak",
+           "TryUnwrap", "GetMut", "MakeMut", "IntoRaw", "FromRaw", "IncStrong", "DecStrong", "DropDetached"}
+OpsStdM == OpsStd \cup {"Misc"}
+OpsStdQ == {"New", "CloneRoot", "DropRoot", "Store", "DropStored", "Downgrade", "Upgrade", "WeakDrop", "StoreWeak",
+            "TryUnwrap", "GetMut", "MakeMut", "IntoRaw", "FromRaw", "DecStrong", "DropDetached"}
 OpsDtorQ == {"New", "CloneRoot", "DropRoot", "AdoptStore", "Downgrade", "StoreWeak"}
 OpsCoreQ == {"New", "CloneRoot", "DropRoot", "Store", "Take", "DropStored", "AdoptStore", "TakeUnadopt", "Adopt"}
 OpsConsumeQ == {"New", "CloneRoot", "DropRoot", "AdoptStore", "Downgrade", "WeakDrop",
@@ -57,7 +68,7 @@ CapsL == [strong |-> 4, stored |-> 2, rec |-> 2, weak |-> 1, storedW |-> 1, over
 OpsDtor == {"New", "CloneRoot", "DropRoot", "Store", "AdoptStore", "TakeUnadopt", "DropStored",
             "Downgrade", "WeakDrop", "StoreWeak", "Upgrade"}
 
-MCInit == Init /\ hist = <<>>
+MCInit == Init /\ hist = <<>> /\ std = S!Std0
 
 CallRec == [op |-> ob'.call.op, a |-> ob'.call.a, b |-> ob'.call.b,
             d |-> IF ob'.call.op = "New" THEN led'.dtor[ob'.call.a] ELSE NoScript]
@@ -67,24 +78,35 @@ Proj(h, x) == [mem |-> h.mem, strong |-> h.strong, weak |-> h.weak, vinit |-> h.
                links |-> [o \in Obj |-> {<<k[1], k[2], h.links[o][k]>> : k \in {k \in Key : h.links[o][k] > 0}}],
                nd |-> x.nd, nf |-> x.nf, ub |-> x.ub, ret |-> x.ret,
                dset |-> {x.dlog[i] : i \in 1..Len(x.dlog)}]
+\* what std::rc's public API would show of the library's state: the refinement mapping of C07
+AbsView(h, x) ==
+  [sc   |-> [o \in Obj |-> IF h.mem[o] = "alloc" /\ h.strong[o] # UNINIT THEN h.strong[o] ELSE 0],
+   wc   |-> [o \in Obj |-> IF h.mem[o] = "alloc" /\ h.strong[o] # UNINIT /\ h.strong[o] > 0 THEN h.weak[o] - 1 ELSE 0],
+   live |-> [o \in Obj |-> h.mem[o] = "alloc" /\ h.vinit[o]],
+   mem  |-> h.mem,
+   dlog |-> x.dlog,
+   ret  |-> x.ret]
+C07 == TrackStd = 1 /\ Quiescent /\ ctl.mode = "run" => S!StdView(std) = AbsView(heap, ob)
+
 MCNext ==
   \/ /\ Call
+     /\ std' = IF TrackStd = 1 THEN S!StdApply(std, led, ob'.call.op, ob'.call.a, ob'.call.b) ELSE std
      /\ hist' = Append(hist, CallRec)
      /\ (EmitOut = 1 /\ ctl'.stack = <<>>) => PrintT(<<"OUT", ToJson(hist'), ToJson(Proj(heap', ob')), ToJson(ob'.dlog)>>)
      /\ (EmitCover > 0 /\ RandomElement(1..EmitCover) = 1) => PrintT(<<"SCRIPT", ToJson(hist')>>)
   \/ /\ Micro
-     /\ hist' = hist
+     /\ hist' = hist /\ std' = std
      \* behaviours that end in a process abort are printed (sampled) as scripts for child mode
      /\ (ctl'.mode = "aborted" /\ RandomElement(1..10) = 1) => PrintT(<<"ABORT", ToJson(hist)>>)
      /\ (EmitOut = 1 /\ ctl'.stack = <<>>) => PrintT(<<"OUT", ToJson(hist), ToJson(Proj(heap', ob')), ToJson(ob'.dlog)>>)
 
-MCSpec == MCInit /\ [][MCNext]_<<vars, hist>>
+MCSpec == MCInit /\ [][MCNext]_<<vars, hist, std>>
 
 \* fingerprint: everything that influences behaviour or a property
 View == <<heap, led,
           [nd |-> ob.nd, nf |-> ob.nf, ub |-> ob.ub, must |-> ob.must, flags |-> ob.flags, dcset |-> ob.dcset,
            empty0 |-> ob.empty0],
-          ctl>>
+          ctl, std>>
 
 \* invariants that print the call sequence of a counterexample as a replayable script
 Cex(name, P) == P \/ (PrintT(<<"CEX", name, ToJson(hist)>>) /\ FALSE)
@@ -97,6 +119,7 @@ MC_C06 == Cex("C06", C06)
 MC_C08 == Cex("C08", C08)
 MC_C14 == Cex("C14", C14)
 MC_C16 == Cex("C16", C16)
+MC_C07 == Cex("C07", C07)
 MC_C15 == Cex("C15", C15)
 MC_C12 == Cex("C12", C12 /\ C01 /\ C03 /\ C05)
 MC_C13 == Cex("C13", C13)
